@@ -8,6 +8,7 @@ import (
 	"encoding/json"
 	"errors"
 	"fmt"
+	"reflect"
 	"sort"
 	"strings"
 	"time"
@@ -636,6 +637,17 @@ func c17RedactionAlgorithm(ctx *vfCtx, impl IRoomVersion) string {
 	_, create := redact("m.room.create", `{"creator":"@u:h.test","room_version":"1","x":1}`)
 	_, pl := redact("m.room.power_levels", `{"invite":5,"ban":1,"x":1}`)
 	_, red := redact("m.room.redaction", `{"redacts":"$x","reason":"r"}`)
+	_, tpiMember := redact("m.room.member", `{"membership":"invite","third_party_invite":{"display_name":"d","signed":{"mxid":"@u:h.test","token":"t","signatures":{}},"x":1}}`)
+	tpi := "other"
+	if tpiMember != nil {
+		var inner map[string]json.RawMessage
+		switch raw, ok := tpiMember["third_party_invite"]; {
+		case !ok:
+			tpi = "absent"
+		case json.Unmarshal(raw, &inner) == nil && len(inner) == 1 && has(inner, "signed") && c17SameJSON(inner["signed"], `{"mxid":"@u:h.test","token":"t","signatures":{}}`):
+			tpi = "signed-only"
+		}
+	}
 	if topA == nil || aliases == nil || jr == nil || member == nil || create == nil || pl == nil || red == nil {
 		return "error"
 	}
@@ -657,20 +669,25 @@ func c17RedactionAlgorithm(ctx *vfCtx, impl IRoomVersion) string {
 	if !has(topA, "origin") && !has(topA, "membership") && !has(topA, "prev_state") {
 		v11flags++
 	}
-	key := fmt.Sprintf("aliases=%v allow=%v authorised=%v v11=%d/4", has(aliases, "aliases"), has(jr, "allow"), has(member, "join_authorised_via_users_server"), v11flags)
+	key := fmt.Sprintf("aliases=%v allow=%v authorised=%v v11=%d/4 tpi=%s", has(aliases, "aliases"), has(jr, "allow"), has(member, "join_authorised_via_users_server"), v11flags, tpi)
 	switch key {
-	case "aliases=true allow=false authorised=false v11=0/4":
+	case "aliases=true allow=false authorised=false v11=0/4 tpi=absent":
 		return "v1"
-	case "aliases=false allow=false authorised=false v11=0/4":
+	case "aliases=false allow=false authorised=false v11=0/4 tpi=absent":
 		return "v6"
-	case "aliases=false allow=true authorised=false v11=0/4":
+	case "aliases=false allow=true authorised=false v11=0/4 tpi=absent":
 		return "v8"
-	case "aliases=false allow=true authorised=true v11=0/4":
+	case "aliases=false allow=true authorised=true v11=0/4 tpi=absent":
 		return "v9"
-	case "aliases=false allow=true authorised=true v11=4/4":
+	case "aliases=false allow=true authorised=true v11=4/4 tpi=signed-only":
 		return "v11"
 	}
 	return "unknown(" + key + ")"
+}
+
+func c17SameJSON(a json.RawMessage, b string) bool {
+	var x, y interface{}
+	return json.Unmarshal(a, &x) == nil && json.Unmarshal([]byte(b), &y) == nil && reflect.DeepEqual(x, y)
 }
 
 func c17Alphabet(s, alpha string) bool {
